@@ -96,7 +96,7 @@ def gen_large(tier, seed):
 def suites(tier, seed):
     return [Suite("listener-mid-content", "machine", lambda: mg.listener_mid_content_cases(Rng(seed + 35)), monitor=monitor, nontrivial=lambda c, il: True, canon=mg.canon_nondet, candidate_ok=mg.candidate_ok, exhaustive=True,
                   rule="a listener registered or replaced between two frames of one content on the same channel: reassembly is not disturbed"),
-            Suite("idle-consumer-backlog", "machine", lambda: [mg.backlog_cases(Rng(seed + 31), "consumer", 70000)], monitor=monitor, nontrivial=lambda c, il: True, canon=mg.canon_nondet, shrink=False, compare=(tier != "quick"), timeout=600,
+            Suite("idle-consumer-backlog", "machine", lambda: [mg.backlog_cases(Rng(seed + 31), "consumer", 70000)] if tier == "quick" else [mg.backlog_cases(Rng(seed + 31), "consumer", 70000, prefix="big"), mg.backlog_cases(Rng(seed + 32), "consumer", 12000)], monitor=monitor, nontrivial=lambda c, il: True, canon=mg.canon_nondet, shrink=False, compare=(tier != "quick"), canon_skip_model=("big",), timeout=600,
                   rule="70 000 deliveries pile up unread in one consumer's queue; a delivery and a call on another channel are then served at once, and the idle consumer finally reads all 70 000 in order followed by its terminal message (quick: judged by the monitor only; thorough: also diffed against the Lean model, whose list queues make that quadratic)"),
             Suite("large-bodies", "machine", lambda: gen_large(tier, seed), monitor=monitor, nontrivial=lambda c, il: True, canon=mg.canon_nondet, candidate_ok=mg.candidate_ok, shards=4, shrink=False,
                   rule="one content (delivery / get answer / return) of 4095, 4096, 4097, 65535, 65536, 131064, 131065, 2^20-1, 2^20, 2^20+1 bytes (thorough: also 2^20+131064, 2^21+3) cut into frames of 64-128 KiB (bodies above 1 MiB: a first frame of exactly / about 1 MiB, then smaller ones), followed by a second small delivery: delivered once, intact, and the next message after it too"),
